@@ -481,6 +481,10 @@ func osfsExec(c *Ctx, op string) {
 				}
 			}
 		}
+		// a cycle is reported as one (the category the interface documents for it), whichever operation meets it
+		if opErr != nil && strings.Contains(opErr.Error(), "cyclic symlinks") && fsCatOf(opErr) != "fs-recursion" {
+			c.PropFail("osfs-differs-from-kernel", fmt.Sprintf("%s on %q met a symlink cycle (ELOOP for the kernel) and reports it as %s instead of fs-recursion", name, raw, fsCatOf(opErr)), op)
+		}
 		c.H("op:" + name + ":" + fsCatOf(opErr))
 		c.EmitR(op, "skip", "skip")
 	case "reuse":
